@@ -497,6 +497,60 @@ def run_mux(pipe, events, timescale=None, taps='all'):
     return _finish(rec, pipe, 'mux', {'src': events})
 
 
+def run_multi(pipes, schedule, taps='all'):
+    """Several pipelines on the sources of one with_store(store, sources=[...]): one store
+    manager and one state topology shared by all of them.  schedule: [(source index,
+    event)], events as in run_mux; every source is completed at the end.  Returns one
+    trace per pipeline (each with its own ordinals)."""
+    import rx
+    import rxsci as rs
+    from rx.subject import Subject
+    n = len(pipes)
+    recs = [Recorder() for _ in range(n)]
+    ctxs = [{'routers': [], 'timescale': None, 'taps': taps} for _ in range(n)]
+    subjects = [Subject() for _ in range(n)]
+    store = rs.state.StoreManager(store_factory=rs.state.MemoryStore)
+    muxed = rs.state.with_store(store, sources=[sj.pipe(rs.cast_as_mux_observable()) for sj in subjects])
+
+    def mk_handlers(rec):
+        def on_error(e):
+            rec.end = {'t': 'error', 'v': enc(e), 'o': rec.nxt()}
+
+        def on_completed():
+            rec.end = {'t': 'completed', 'v': NONE, 'o': rec.nxt()}
+        return on_error, on_completed
+    with C.quiet_stdout():
+        for i in range(n):
+            ops = build(pipes[i], recs[i], [], ctxs[i])
+            on_error, on_completed = mk_handlers(recs[i])
+            muxed[i].pipe(*ops).subscribe(on_next=lambda x: None, on_error=on_error,
+                                          on_completed=on_completed)
+        try:
+            for (si, ev) in schedule:
+                if recs[si].end['t'] != 'open':
+                    continue
+                t = ev['t']
+                key = (ev['k'][0],)
+                if t == 'c':
+                    subjects[si].on_next(rs.OnCreateMux(key))
+                elif t == 'n':
+                    subjects[si].on_next(rs.OnNextMux(key, dec(ev['v'])))
+                elif t == 'd':
+                    subjects[si].on_next(rs.OnCompletedMux(key))
+            for i in range(n):
+                if recs[i].end['t'] == 'open':
+                    subjects[i].on_completed()
+        except Exception as e:
+            for r in recs:
+                if r.end['t'] == 'open':
+                    r.end = {'t': 'error', 'v': ['x', -1], 'o': r.nxt(), 'raised': type(e).__name__}
+    out = []
+    for i in range(n):
+        out.append(_finish(recs[i], pipes[i], 'mux', {'src': [ev for (si, ev) in schedule if si == i],
+                                                    'multi': {'index': i, 'of': n}}))
+    return out
+
+
 def run_src(pipe, items, complete=True, timescale=None, taps='all'):
     """A plain source through with_memory_store (root key (0,))."""
     import rx
